@@ -436,9 +436,14 @@ func (c *Ctx) loopHead(fr *Frame, h *ssa.BasicBlock, in *State, entryPhis map[*s
 			// only cells with these (loop-invariant) keys are written in the loop body
 			var ex []string
 			for _, k := range mi.keys {
+				if strings.HasPrefix(k, "@elems ") { // every element (and embedded sub-object) of one backing store
+					f := strings.Fields(k)
+					ex = append(ex, c.elemOfPred("q.r", f[1], f[2:]))
+					continue
+				}
 				ex = append(ex, "(= q.r "+k+")")
 			}
-			c.assume(fmt.Sprintf("(forall ((q.r Int)) (! (=> (not %s) (= (select %s q.r) (select %s q.r))) :pattern ((select %s q.r))))", or(ex...), nh, before, nh), "")
+			c.assume(fmt.Sprintf("(forall ((q.r Int)) (! (=> (and (< (birth q.r) %s) (not %s)) (= (select %s q.r) (select %s q.r))) :pattern ((select %s q.r))))", in.now, or(ex...), nh, before, nh), "")
 		}
 	}
 	fr.loopPos[ord] = len(c.script)
@@ -476,11 +481,54 @@ func (c *Ctx) backEdge(fr *Frame, from, h *ssa.BasicBlock, st *State) {
 	mods := c.loopMods[key]
 	headPos := fr.loopPos[ord]
 	late := map[string]bool{}
+	defs := map[string]string{}
 	for _, l := range c.script[headPos:] {
-		if strings.HasPrefix(l, "(declare-const ") || strings.HasPrefix(l, "(define-fun ") {
+		if strings.HasPrefix(l, "(declare-const ") {
 			f := strings.Fields(l)
 			late[f[1]] = true
 		}
+		if strings.HasPrefix(l, "(define-fun ") {
+			// (define-fun name () sort body)
+			f := strings.Fields(l)
+			rest := l[len("(define-fun ")+len(f[1])+len(" () "):]
+			srt := firstArg(rest)
+			body := strings.TrimSpace(rest[len(srt):])
+			defs[f[1]] = body[:len(body)-1]
+		}
+	}
+	expand := func(t string) string {
+		for i := 0; i < 6; i++ {
+			changed := false
+			var sb strings.Builder
+			j := 0
+			for j < len(t) {
+				if strings.ContainsRune("() ", rune(t[j])) {
+					sb.WriteByte(t[j])
+					j++
+					continue
+				}
+				k := j
+				for k < len(t) && !strings.ContainsRune("() ", rune(t[k])) {
+					k++
+				}
+				tok := t[j:k]
+				if d, ok := defs[tok]; ok && len(d) < 400 {
+					sb.WriteString(d)
+					changed = true
+				} else {
+					if _, isDef := defs[tok]; isDef {
+						late[tok] = true // too large to expand: treat as variant
+					}
+					sb.WriteString(tok)
+				}
+				j = k
+			}
+			t = sb.String()
+			if !changed {
+				break
+			}
+		}
+		return t
 	}
 	need := map[string]*modInfo{}
 	for _, w := range c.writes {
@@ -492,10 +540,20 @@ func (c *Ctx) backEdge(fr *Frame, from, h *ssa.BasicBlock, st *State) {
 			mi = &modInfo{}
 			need[w.heap] = mi
 		}
-		if w.key == "" || !invariantTerm(w.key, late) {
+		wkey := expand(w.key)
+		if root := rootOfKey(wkey); c.fresh[root] && late[root] {
+			continue // object allocated inside the loop body: not constrained by the frame (guarded by birth)
+		}
+		if wkey != "" && invariantTerm(wkey, late) {
+			if !containsStr(mi.keys, wkey) {
+				mi.keys = append(mi.keys, wkey)
+			}
+		} else if p, ok := elemKeyPattern(wkey, late); ok {
+			if !containsStr(mi.keys, p) {
+				mi.keys = append(mi.keys, p)
+			}
+		} else {
 			mi.whole = true
-		} else if !containsStr(mi.keys, w.key) {
-			mi.keys = append(mi.keys, w.key)
 		}
 	}
 	for n, t := range st.heap {
@@ -853,7 +911,7 @@ func (c *Ctx) initBacking(st *State, et types.Type, data string, n int64) {
 			}
 			return
 		}
-		c.zeroStructElems(st, et, data, func(r string) string { return "(= (elemD " + r + ") " + data + ")" }, func(r string) string { return r })
+		c.zeroStructElems(st, et, data, func(r string) string { return c.elemOfPred(r, data, nil) }, func(r string) string { return r })
 		return
 	}
 	name := elemHeap(et)
@@ -999,10 +1057,21 @@ func (c *Ctx) doStore(fr *Frame, st *State, addr, v Val, ptrType types.Type) {
 
 func (c *Ctx) binop(fr *Frame, st *State, op token.Token, a, b Val, at, bt, rt types.Type) Val {
 	switch op {
-	case token.EQL:
-		return sc(c.eqVal(a, b), rt)
-	case token.NEQ:
-		return sc(not(c.eqVal(a, b)), rt)
+	case token.EQL, token.NEQ:
+		eq := ""
+		isNilIface := func(v Val) bool { return v.K == VIface && v.F[0].T == "0" && v.F[1].T == "0" }
+		switch {
+		case isNilIface(a) && b.K == VIface:
+			eq = "(= " + b.F[0].T + " 0)" // an interface is nil iff its dynamic type is nil
+		case isNilIface(b) && a.K == VIface:
+			eq = "(= " + a.F[0].T + " 0)"
+		default:
+			eq = c.eqVal(a, b)
+		}
+		if op == token.NEQ {
+			eq = not(eq)
+		}
+		return sc(eq, rt)
 	}
 	cl := classOf(at)
 	if cl == CBool {
@@ -1465,8 +1534,8 @@ func subsetStr(a, b []string) bool {
 // invariantTerm: the term mentions no name introduced after the loop head.
 func invariantTerm(t string, late map[string]bool) bool {
 	for _, tok := range strings.FieldsFunc(t, func(r rune) bool { return r == '(' || r == ')' || r == ' ' }) {
-		if late[tok] {
-			return false
+		if late[tok] || strings.HasPrefix(tok, "Hl.") || strings.HasPrefix(tok, "now.l") {
+			return false // introduced in the loop, or reads memory that the loop modifies
 		}
 	}
 	return true
@@ -1493,4 +1562,39 @@ func (c *Ctx) stepGuarded(fr *Frame, st *State, ins ssa.Instruction) {
 		}
 	}()
 	c.step(fr, st, ins)
+}
+
+// elemKeyPattern recognises keys (sub$.. (elem D I)) whose backing store D is loop-invariant while the index
+// varies; the pattern "@elems D fn1 fn2.." stands for all elements of D (fn: enclosing sub-object functions, outermost first).
+func elemKeyPattern(key string, late map[string]bool) (string, bool) {
+	var fns []string
+	k := key
+	for strings.HasPrefix(k, "(sub$") {
+		i := strings.Index(k, " ")
+		fns = append(fns, k[1:i])
+		k = firstArg(k[i+1 : len(k)-1])
+	}
+	if !strings.HasPrefix(k, "(elem ") {
+		return "", false
+	}
+	d := firstArg(k[6 : len(k)-1])
+	if strings.Contains(d, " ") || !invariantTerm(d, late) {
+		return "", false
+	}
+	return strings.TrimSpace("@elems " + d + " " + strings.Join(fns, " ")), true
+}
+
+// rootOfKey strips sub-object and element wrappers: the allocation a key belongs to.
+func rootOfKey(k string) string {
+	for {
+		switch {
+		case strings.HasPrefix(k, "(sub$"):
+			i := strings.Index(k, " ")
+			k = firstArg(k[i+1 : len(k)-1])
+		case strings.HasPrefix(k, "(elem "):
+			k = firstArg(k[6 : len(k)-1])
+		default:
+			return k
+		}
+	}
 }
